@@ -346,6 +346,18 @@ FASTOR_INLINE TensorConstViewExpr<Tensor<T,Rest...>,2> operator()(seq _s0, seq _
     static_assert(dimension_t::value==2,"INDEXING TENSOR WITH INCORRECT NUMBER OF ARGUMENTS");
     return TensorConstViewExpr<Tensor<T,Rest...>,2>(*this,_s0,_s1);
 }
+template<int F0, int L0, int S0>
+FASTOR_INLINE TensorConstViewExpr<Tensor<T,Rest...>,2>
+operator()(fseq<F0,L0,S0> _s0, seq _s1) const {
+    static_assert(dimension_t::value==2,"INDEXING TENSOR WITH INCORRECT NUMBER OF ARGUMENTS");
+    return TensorConstViewExpr<Tensor<T,Rest...>,2>(*this,_s0,_s1);
+}
+template<int F0, int L0, int S0>
+FASTOR_INLINE TensorConstViewExpr<Tensor<T,Rest...>,2>
+operator()(seq _s0, fseq<F0,L0,S0> _s1) const {
+    static_assert(dimension_t::value==2,"INDEXING TENSOR WITH INCORRECT NUMBER OF ARGUMENTS");
+    return TensorConstViewExpr<Tensor<T,Rest...>,2>(*this,_s0,_s1);
+}
 template<typename Int, typename std::enable_if<std::is_integral<Int>::value,bool>::type=0>
 FASTOR_INLINE TensorConstViewExpr<Tensor<T,Rest...>,2> operator()(seq _s0, Int num) const {
     static_assert(dimension_t::value==2,"INDEXING TENSOR WITH INCORRECT NUMBER OF ARGUMENTS");
